@@ -141,6 +141,8 @@ impl<const K: u8> Show for Option<&'static A<K>> { fn sv(&self) -> String { matc
 impl<const K: u8> Show for &'static mut A<K> { fn sv(&self) -> String { format!("&mut A{}:{}", K, self.0) } }
 
 // ---- C11: compile-time probes "does `T: Trait` hold?" (an inherent const shadows a trait const when its bounds hold)
+/// an alias: not spelled as a primitive, so a literal default reaches it through `Into`
+pub type Off = i64;
 pub struct Good(pub u8);
 pub struct Bad(pub u8);
 impl PartialEq for Good { fn eq(&self, o: &Self) -> bool { self.0 == o.0 } }
